@@ -32,8 +32,8 @@ TIE_FOR = {
     'C05': ['TieClasses', 'TieReducers', 'TieRules', 'TieSynth', 'TieSynthAll', 'TieNorm', 'TieRoute'],
     'C06': ['TieClasses', 'TieReducers', 'TieMath', 'TieFormulas', 'TieOrch', 'TieRules', 'TieSynth', 'TieSynthAll', 'TieNorm', 'TieRoute'],
     'C07': ['TieClasses', 'TieReducers', 'TieMath', 'TieFormulas', 'TieOrch', 'TieRules', 'TieRoute'],
-    'C08': ['TieReducers', 'TieRules', 'TieNorm'],
-    'C09': ['TieCache', 'TieBound', 'TieCacheBody'], 'C10': ['TieWrites'], 'C11': ['TieReducers', 'TieBound', 'TieRules'],
+    'C08': ['TieReducers', 'TieRules', 'TieNorm', 'TieStep'],
+    'C09': ['TieCache', 'TieBound', 'TieCacheBody', 'TieStep'], 'C10': ['TieWrites'], 'C11': ['TieReducers', 'TieBound', 'TieRules', 'TieStep'],
     'C12': ['TieClasses', 'TieObj'], 'C13': ['TiePublic', 'TieObj'], 'C14': ['TieSets', 'TieRoute'], 'C15': ['TieOperators'],
     'C16': ['TieClasses'], 'C17': ['TieClasses', 'TieMath'], 'C18': ['TieSets'],
 }
